@@ -1094,4 +1094,7 @@ class PX:
             return self._run(st, clos[1], [clos] + list(args), depth + 1)
         if clos[0] == 'fn' and clos[1] in self.p.bodies and not self.p.has_loops(clos[1]):
             return self._run(st, clos[1], list(args), depth + 1)
+        if clos[0] == 'fn' and clos[1] not in self.p.bodies and self.models.totality(clos[1]) == 'total':
+            # an external function item used as a callback (Vec::new, String::new, ...): a pure application
+            return [(st, ('pure', clos[1], tuple(args)))]
         return [(st, ('call', 'closure?', (clos,) + tuple(args), st.uid()))]
